@@ -93,7 +93,7 @@ COORD_TB = ["M6 trace correspondence: the real coordinator under the schedule co
             "direct oracles on the real outputs of every explored run (bytes vs sequential processing, verdict, exactly-once starts, marker order)"]
 
 PROPS["C02"] = {
-    "jobs": [{"cmd": "c02", "shards": 16}, "corner"],
+    "jobs": [{"cmd": "c02", "shards": 16}, "corner", {"cmd": "trace", "shards": 16}],
     "cli": False, "trusted_base": COORD_TB, "modelled": COORD_MODELLED,
     "level_text": 'Lean theorems over the coordinator + worker model, for every dependency graph, every interleaving of begin/finish/deliver steps, every thread count and every initial content of the outputs: a final pass is in flight only after all its dependencies finished; finished files are never touched again; at a successful exit every output is the complete sequential value, the unique solution of out f = render f out; any two successful executions (schedules, thread counts, stale outputs) finish the same files with the same contents (schedule_independent); in a first pass, meeting an include/after of a generated file switches to collect mode and from then on nothing is executed or written (commands after a dependency run only in the second pass). The real coordinator is driven through ALL delivery orders of every acyclic digraph on <= 4 files with stale outputs on disk and alias spellings, and its trace (incl. the done/total counters), bytes and marker order are compared on every run.',
     "design_ref": "5 C02, 4.7",
@@ -102,7 +102,7 @@ PROPS["C02"] = {
     "assumptions": ["commands terminate; a pass reads only its declared dependencies (RenderLocal)"],
 }
 PROPS["C03"] = {
-    "jobs": [{"cmd": "c03", "shards": 16}, {"cmd": "c03d", "shards": 16}, "big"],
+    "jobs": [{"cmd": "c03", "shards": 16}, {"cmd": "c03d", "shards": 16}, "big", {"cmd": "trace", "shards": 16}],
     "cli": True, "trusted_base": COORD_TB, "modelled": COORD_MODELLED,
     "level_text": "Lean theorems: done == total iff nothing is in flight; no deadlock; at most 2|U| deliveries over any finite universe (termination under every schedule, cyclic or not); success implies every seen file finished; finished list, seen list and pool are duplicate-free and a finished file never gets a task again (exactly once); the unwrap in notify_finish cannot fail; with directory scan tasks: the exit test on the shared counters holds iff neither a file task nor a scan is in flight, every directory is scanned at most once (also under symbolic-link loops), and files found by scanning obey the same invariant. All delivery orders of all digraphs (cyclic included) on <= 3 files with duplicate inputs are explored on the real coordinator; task starts and command markers are counted.",
     "design_ref": "5 C03, 4.7",
@@ -111,7 +111,7 @@ PROPS["C03"] = {
     "assumptions": ["commands terminate", "no worker thread panics (C18)"],
 }
 PROPS["C05"] = {
-    "jobs": [{"cmd": "c05", "shards": 16}],
+    "jobs": [{"cmd": "c05", "shards": 16}, {"cmd": "trace", "shards": 16}],
     "cli": False, "trusted_base": COORD_TB, "modelled": COORD_MODELLED,
     "level_text": "Lean theorems: at quiescence every still-waiting file reaches a dependency cycle (so acyclic projects never get the circular failure), finished files cannot reach a cycle (so a required cyclic file never yields success), every seen file that cannot reach a cycle is finished with the complete sequential output, and the delivery bound does not need acyclicity (never hangs). Explored on the real coordinator over all digraphs with self-loops on <= 3 files, all delivery orders.",
     "design_ref": "5 C05, 4.7",
